@@ -435,6 +435,24 @@ def sig_unsigned_above(case):
     return False
 
 
+def sanitize(case):
+    """the case with every known-finding trigger replaced by a benign value"""
+    out = []
+    for t in case.split():
+        if t == "K:":
+            t = "K:6b"
+        elif t.startswith("S:") or t.startswith("K:"):
+            h = t[2:]
+            t = t[:2] + "".join("61" if h[i:i + 2] == "00" else h[i:i + 2] for i in range(0, len(h), 2))
+        else:
+            m = re.match(r"^I(u32|u64):(\d+)(.*)$", t)
+            if m:
+                lim = 2**31 - 1 if m.group(1) == "u32" else 2**63 - 1
+                t = "I%s:%d%s" % (m.group(1), int(m.group(2)) & lim, m.group(3))
+        out.append(t)
+    return " ".join(out)
+
+
 SIGNATURES = {"string_contains_nul": sig_nul, "empty_key": sig_empty_key, "unsigned_above_signed_max": sig_unsigned_above}
 
 _orig_load_known = C.load_known_findings
@@ -509,32 +527,55 @@ def run(run, tier, seed, replay_case=None):
 
     rng = random.Random(seed * 7919 + 24)
     corpus = C.load_corpus(PROP)
-    nt, np_ = (2200, 1800) if tier == "quick" else (40000, 30000)
+    nt, np_ = (1500, 1200) if tier == "quick" else (40000, 30000)
     cases = list(corpus) + ["P " + hexs(s.encode("utf8")) for s in P_SEEDS]
     cases += [gen_tcase(rng, tier) for _ in range(nt)] + [gen_pcase(rng) for _ in range(np_)]
     if replay_case is not None:
         cases = [replay_case]
-    env = C.lib_env("asan")
+    env = dict(C.lib_env("asan"))
+    # reads past the terminating NUL are expected on some malformed texts (model: Oob); without symbolisation the
+    # sanitizer report costs milliseconds instead of seconds
+    env["ASAN_OPTIONS"] += ":symbolize=0"
     D = Diff24(run, PROP, [impl], model, env, view=view, signatures=SIGNATURES, keep_first=2,
                model_desc="coq/C24/Model.v vs src/types/json.cpp, src/types/primitive.cpp")
     I, R, S = D.eval(cases)
 
-    # tree-aware shrinking of the cases on which the implementation misses the specification (the framework's
-    # token deletion would produce unbalanced trees); bounded, and each distinct shrunk case is kept once
+    # Tree-aware shrinking of the cases on which the implementation misses the specification (the framework's
+    # token deletion would produce unbalanced trees).  Cases are grouped by the known-finding signatures their
+    # text matches and by what failed; a few per group are shrunk.  So that a known finding cannot hide another
+    # failure in the same case, every remaining case is re-run with the known-finding triggers replaced by benign
+    # values (one batch): a case that still fails is shrunk as well.
     fails = [i for i in range(len(cases)) if D.fails_spec(I[i], S[i])]
     seen = {}
 
     def still(cs):
         i1, r1, s1 = D.eval(cs, parallel=False)
         return [D.fails_spec(a, b) for a, b in zip(i1, s1)]
-    for n, i in enumerate(fails):
-        if n >= 40:
+    groups = {}
+    for i in fails:
+        key = (tuple(sorted(n for n, f in SIGNATURES.items() if f(cases[i]))), view(I[i]))
+        groups.setdefault(key, []).append(i)
+    to_shrink, rest = [], []
+    for key, idx in groups.items():
+        keep = 2 if key[0] else 6
+        to_shrink += idx[:keep]
+        rest += idx[keep:]
+    if rest:
+        san = [sanitize(cases[i]) for i in rest]
+        i1, r1, s1 = D.eval(san, parallel=len(san) > 40)
+        for j, i in enumerate(rest):
+            if D.fails_spec(i1[j], s1[j]):
+                cases[i], I[i], R[i], S[i] = san[j], i1[j], r1[j], s1[j]
+                to_shrink.append(i)
+    for n, i in enumerate(to_shrink):
+        if n >= 12:
             break
         small = shrink_case(cases[i], still)
         if small != cases[i]:
             i1, r1, s1 = D.eval([small], parallel=False)
             cases[i], I[i], R[i], S[i] = small, i1[0], r1[0], s1[0]
         seen[small] = seen.get(small, 0) + 1
+    run.coverage["failing_cases"] = dict(total=len(fails), groups=len(groups), shrunk=min(len(to_shrink), 12))
     D.judge(cases, I, R, S, proof_failures=pr["failures"], shrink=False)
 
     # hash observations on the plain library: same hash whatever the insertion order; hash = hash(dump(0))
